@@ -17,7 +17,7 @@ PROP = Property(
                   "gen/tables.c (key numbers, which printable characters the library escapes, rcode/class/opcode tables used by the supported-subset predicate)",
                   "harness/wire_drv.c, ocaml/wire_drv.ml, gen/dnsgen.py",
                   "clang 14 ASan/UBSan"],
-    assumptions=["C04_sound / C04_complete over all inputs are decided by the differential run (implementation dump vs extracted reference decoder) on generated messages, not yet by a Coq proof; proved for all inputs: escaping round trip",
+    assumptions=["C04_sound and C04_complete are Coq theorems about the model Parse.v (fixed variant, parse flags 0), which is tied to the library by the differential run (implementation dump vs extracted model and vs extracted reference decoder) on generated messages",
                  "ref_decode is lenient (ignores trailing octets, accepts compressed names anywhere); messages with more than one OPT RR are outside its domain (counted, not judged)",
                  "supported subset for completeness: one question, known opcode, known classes, printable text fields, RDATA consumed exactly"],
     rule="structure-aware DNS messages (all supported RR types, compression layouts, boundary lengths) + mutations; non-trivial = the parser got past the header; distinct by case text; the oracle compares the implementation's dump through the public getters with the dump of the extracted reference decoder",
